@@ -14,13 +14,13 @@ package tls
 //@   ensures total512: ret1 && 0x200 - unpaddedLen >= 5 ==> unpaddedLen + 4 + ret0 == 512
 
 //@ func (*SupportedCurvesExtension).Len
-//@   property C08 C02
+//@   property C08 C02 C03
 //@   requires e != nil
 //@   pure
 //@   ensures ret == 6 + 2*len(e.Curves)
 
 //@ func (*SupportedCurvesExtension).Read
-//@   property C08 C02
+//@   property C08 C02 C03
 //@   let n = len(e.Curves)
 //@   requires e != nil
 //@   requires arr(b) != arr(e.Curves)
